@@ -16,6 +16,7 @@ import (
 	"github.com/ucan-wg/go-ucan/did"
 	"github.com/ucan-wg/go-ucan/pkg/args"
 	"github.com/ucan-wg/go-ucan/pkg/command"
+	"github.com/ucan-wg/go-ucan/pkg/policy"
 	"github.com/ucan-wg/go-ucan/token/delegation"
 	"github.com/ucan-wg/go-ucan/token/invocation"
 )
@@ -38,6 +39,12 @@ func cmpChain(line, g, m string) string {
 	if strings.HasPrefix(line, "chain.validat") {
 		if g != m {
 			return "IsValidAt differs"
+		}
+		return ""
+	}
+	if strings.HasPrefix(line, "go.chain.sharedpolicies") {
+		if g != "ok" {
+			return "go-allows-model-denies:policy" // a statement of a chain stopped binding (or a delegation was changed)
 		}
 		return ""
 	}
@@ -125,6 +132,12 @@ func principals() []principal {
 		}
 		pool = append(pool, principal{nil, d})
 	}
+	// principals of the other key algorithms (10 RSA, 11 P-256, 12 secp256k1): their identifiers are long, or
+	// have several possible spellings; decoded tokens carry the parsed identifier, constructed ones the built one
+	for _, alg := range []string{"rsa", "p256", "secp256k1"} {
+		k := keyFor(alg, 3)
+		pool = append(pool, principal{k.priv, k.did})
+	}
 	return pool
 }
 
@@ -141,8 +154,9 @@ func (l mapLoader) GetDelegation(c cid.Cid) (*delegation.Token, error) {
 }
 
 type sealedDlg struct {
-	tok *delegation.Token
+	tok *delegation.Token // decoded from the sealed bytes
 	cid cid.Cid
+	raw *delegation.Token // as the constructor returned it (never sealed: sub-second bounds, caller's slices)
 }
 
 var dlgCache = map[string]sealedDlg{}
@@ -161,10 +175,10 @@ func optOffset(s string) (*time.Duration, error) {
 
 // buildDlg builds, seals and decodes the delegation described by "iss~aud~sub~cmdhex~policy~nbf~exp".
 func buildDlg(desc string) (sealedDlg, error) {
-	if s, ok := dlgCache[desc]; ok {
+	f := strings.Split(desc, "~")
+	if s, ok := dlgCache[desc]; ok && !(len(f) == 7 && f[5] == "0") { // a not-before of "now" is built afresh each time
 		return s, nil
 	}
-	f := strings.Split(desc, "~")
 	if len(f) != 7 {
 		return sealedDlg{}, fmt.Errorf("bad delegation record %q", desc)
 	}
@@ -216,9 +230,20 @@ func buildDlg(desc string) (sealedDlg, error) {
 	if c != c2 {
 		return sealedDlg{}, fmt.Errorf("cid mismatch between seal and unseal")
 	}
-	s := sealedDlg{dec, c}
+	s := sealedDlg{dec, c, tkn}
 	dlgCache[desc] = s
 	return s, nil
+}
+
+// variantCid is another CID over the same digest: raw codec, dag-pb codec, or CIDv0. No loader has it.
+func variantCid(c cid.Cid, i int) cid.Cid {
+	switch i % 3 {
+	case 0:
+		return cid.NewCidV1(cid.Raw, c.Hash())
+	case 1:
+		return cid.NewCidV1(cid.DagProtobuf, c.Hash())
+	}
+	return cid.NewCidV0(c.Hash())
 }
 
 func unknownCid(i int) cid.Cid {
@@ -271,6 +296,97 @@ func classOf(err error) string {
 
 var errHook = errors.New("hook failed")
 
+// sharedPolicies: delegations built in this process from policy slices that share one backing array (each policy is
+// the previous one with a statement appended). Validating an invocation under one chain must not change what another
+// delegation demands: the admin chain refuses arguments that violate its own statement before and after.
+func sharedPolicies() (out string) {
+	defer func() {
+		if r := recover(); r != nil {
+			out = fmt.Sprint("panic ", r)
+		}
+	}()
+	ps := principals()
+	stmt := func(sel string, v int64) policy.Policy {
+		return policy.MustConstruct(policy.LessThanOrEqual(sel, basicInt(v)))
+	}
+	base := make(policy.Policy, 0, 8)
+	rootPol := append(base, stmt(".a?", 100)...)
+	editorPol := append(rootPol, stmt(".b?", 100)...)
+	adminPol := append(editorPol, stmt(".c?", 100)...)
+	cmd := command.MustParse("/shared")
+	root, err := delegation.Root(ps[0].did, ps[1].did, cmd, rootPol)
+	if err != nil {
+		return "fixture: " + err.Error()
+	}
+	editor, err := delegation.New(ps[1].did, ps[2].did, cmd, editorPol, delegation.WithSubject(ps[0].did))
+	if err != nil {
+		return "fixture: " + err.Error()
+	}
+	admin, err := delegation.New(ps[1].did, ps[3].did, cmd, adminPol, delegation.WithSubject(ps[0].did))
+	if err != nil {
+		return "fixture: " + err.Error()
+	}
+	cidOf := func(t *delegation.Token, k crypto.PrivKey) cid.Cid {
+		_, c, err := t.ToSealed(k)
+		if err != nil {
+			panic(err)
+		}
+		return c
+	}
+	rc, ec, ac := cidOf(root, ps[0].priv), cidOf(editor, ps[1].priv), cidOf(admin, ps[1].priv)
+	loader := mapLoader{rc: root, ec: editor, ac: admin}
+	adminBefore := admin.Policy().String()
+	mk := func(iss int, leaf cid.Cid, key string, v int64) *invocation.Token {
+		t, err := invocation.New(ps[iss].did, ps[0].did, cmd, []cid.Cid{leaf, rc}, invocation.WithArgument(key, v))
+		if err != nil {
+			panic(err)
+		}
+		return t
+	}
+	bad := mk(3, ac, "c", 1000) // violates the admin delegation's own statement
+	good := mk(2, ec, "b", 1)
+	if err := bad.ExecutionAllowed(loader); err == nil {
+		return "the admin chain allows arguments that violate its statement (before anything else was validated)"
+	}
+	for i := 0; i < 3; i++ {
+		if err := good.ExecutionAllowed(loader); err != nil {
+			return "the editor chain refuses conforming arguments: " + err.Error()
+		}
+		if err := bad.ExecutionAllowed(loader); err == nil {
+			return "after an invocation of the editor chain was validated, the admin chain allows arguments that violate its statement"
+		}
+	}
+	if after := admin.Policy().String(); after != adminBefore {
+		return "validating invocations changed the policy of a delegation that was only read"
+	}
+	return "ok"
+}
+
+var otherInv *invocation.Token
+var otherLoader mapLoader
+
+// otherInvocation is a fixed, valid invocation with a two-link chain over principals 4 → 3 → 2 and other commands.
+func otherInvocation() (*invocation.Token, mapLoader) {
+	if otherInv != nil {
+		return otherInv, otherLoader
+	}
+	ps := principals()
+	root, err := buildDlg("4~3~4~" + hxs("/other") + "~P()~-~-")
+	if err != nil {
+		panic(err)
+	}
+	leaf, err := buildDlg("3~2~4~" + hxs("/other/x") + "~P()~-~-")
+	if err != nil {
+		panic(err)
+	}
+	otherLoader = mapLoader{root.cid: root.tok, leaf.cid: leaf.tok}
+	otherInv, err = invocation.New(ps[2].did, ps[4].did, command.MustParse("/other/x/y"), []cid.Cid{leaf.cid, root.cid})
+	if err != nil {
+		panic(err)
+	}
+	return otherInv, otherLoader
+}
+
 func evalChain(line string) (out string, rd string) {
 	defer func() {
 		if r := recover(); r != nil {
@@ -280,6 +396,9 @@ func evalChain(line string) (out string, rd string) {
 	f := strings.Fields(line)
 	if f[0] == "chain.validat" {
 		return evalValidAt(f), line
+	}
+	if f[0] == "go.chain.sharedpolicies" {
+		return sharedPolicies(), line
 	}
 	if f[0] == "chain.history" {
 		h, err := newHistory(f)
@@ -296,6 +415,7 @@ func evalChain(line string) (out string, rd string) {
 	ps := principals()
 	var table []sealedDlg
 	loader := mapLoader{}
+	rawDlg := len(f) > 7 && strings.Contains(f[7], "rawdlg")
 	if f[3] != "-" {
 		for _, d := range strings.Split(f[3], "#") {
 			s, err := buildDlg(d)
@@ -304,6 +424,9 @@ func evalChain(line string) (out string, rd string) {
 			}
 			table = append(table, s)
 			loader[s.cid] = s.tok
+			if rawDlg {
+				loader[s.cid] = s.raw // the token as constructed, not as decoded
+			}
 		}
 	}
 	var prf []cid.Cid
@@ -311,6 +434,11 @@ func evalChain(line string) (out string, rd string) {
 		for i, p := range strings.Split(f[2], ".") {
 			if p == "x" {
 				prf = append(prf, unknownCid(i))
+				continue
+			}
+			if strings.HasPrefix(p, "v") {
+				k, _ := strconv.Atoi(p[1:])
+				prf = append(prf, variantCid(table[k].cid, i))
 				continue
 			}
 			k, _ := strconv.Atoi(p)
@@ -362,12 +490,20 @@ func evalChain(line string) (out string, rd string) {
 				opts = append(opts, invocation.WithoutInvokedAt())
 			case "iat":
 				opts = append(opts, invocation.WithInvokedAtIn(-time.Hour*24*365))
+			case "iatfuture":
+				opts = append(opts, invocation.WithInvokedAtIn(3*time.Hour))
 			}
 		}
 	}
 	inv, err := invocation.New(ps[iss].did, ps[sub].did, cmd, prf, opts...)
 	if err != nil {
 		return "bad-inv " + err.Error(), rd
+	}
+	// the caller keeps using the Args value it handed to the constructor: the token must not change with it
+	before := inv.Arguments().String()
+	_ = a.Add("zz-added-by-the-caller-afterwards", int64(1000))
+	if after := inv.Arguments().String(); after != before {
+		return "bad-token-shares-the-callers-arguments", rd
 	}
 	switch f[6] {
 	case "-":
@@ -376,8 +512,54 @@ func evalChain(line string) (out string, rd string) {
 		v1 := classOf(inv.ExecutionAllowed(loader))
 		v2 := classOf(inv.ExecutionAllowed(loader))
 		v3 := classOf(inv.ExecutionAllowedWithArgsHook(loader, func(a args.ReadOnly) (*args.Args, error) { return a.WriteableClone(), nil }))
-		if (v1 == "ok") != (v2 == "ok") || (v1 == "ok") != (v3 == "ok") {
-			return "multi:" + v1 + "|" + v2 + "|" + v3, rd
+		// … and with a hook that, before answering, validates an unrelated (allowed) invocation: one validation
+		// running inside another must not disturb it
+		oi, ol := otherInvocation()
+		v4 := classOf(inv.ExecutionAllowedWithArgsHook(loader, func(a args.ReadOnly) (*args.Args, error) {
+			if err := oi.ExecutionAllowed(ol); err != nil {
+				return nil, fmt.Errorf("the unrelated invocation was refused: %w", err)
+			}
+			return a.WriteableClone(), nil
+		}))
+		// … and with a hook that validates the "repaired twin" of this very invocation: same principals, every
+		// command "/", no policies, no time bounds (what one validation loads must not leak into another)
+		v5 := v1
+		if f[3] != "-" && f[2] != "-" {
+			var tprf []cid.Cid
+			tl := mapLoader{}
+			okTwin := true
+			var tcids []cid.Cid
+			for _, d := range strings.Split(f[3], "#") {
+				p := strings.Split(d, "~")
+				if len(p) != 7 {
+					okTwin = false
+					break
+				}
+				p[3], p[4], p[5], p[6] = hxs("/"), "P()", "-", "-"
+				td, err := buildDlg(strings.Join(p, "~"))
+				if err != nil {
+					okTwin = false
+					break
+				}
+				tl[td.cid] = td.tok
+				tcids = append(tcids, td.cid)
+			}
+			if okTwin {
+				for _, p := range strings.Split(f[2], ".") {
+					if k, err := strconv.Atoi(p); err == nil && k < len(tcids) {
+						tprf = append(tprf, tcids[k])
+					}
+				}
+				if twin, err := invocation.New(ps[iss].did, ps[sub].did, command.Top(), tprf); err == nil {
+					v5 = classOf(inv.ExecutionAllowedWithArgsHook(loader, func(a args.ReadOnly) (*args.Args, error) {
+						_ = twin.ExecutionAllowed(tl)
+						return a.WriteableClone(), nil
+					}))
+				}
+			}
+		}
+		if (v1 == "ok") != (v2 == "ok") || (v1 == "ok") != (v3 == "ok") || (v1 == "ok") != (v4 == "ok") || (v1 == "ok") != (v5 == "ok") {
+			return "multi:" + v1 + "|" + v2 + "|" + v3 + "|" + v4 + "|" + v5, rd
 		}
 		return v1, rd
 	case "!":
@@ -543,8 +725,9 @@ func conforming(n int) scenario {
 var cmdLattice = []string{"/", "/foo", "/foo/bar", "/foobar", "/foo/baz", "/fo"}
 var timeChoices = []string{"", "-7200", "7200"}
 var argMaps = []string{"m()", "m(61:i1)", "m(61:i2,62:s78)", "m(61:i1,62:s78,6c:l(i1,i2))"}
-var polChoices = []string{"", "P(ceq(" + "2e61" + ",i1))", "P(ceq(2e62,s78))", "P(cgt(2e61,i1))", "P(ceq(2e613f,i1))", "P(A(2e6c,cgt(2e,i0)))", "P(ceq(2e61,i1);ceq(2e62,s78))"}
-var irrChoices = []string{"none", "meta", "nonce", "cause", "noiat", "iat", "meta,nonce,cause,iat", "emptynonce", "emptynonce,noiat"}
+var polChoices = []string{"", "P(ceq(" + "2e61" + ",i1))", "P(ceq(2e62,s78))", "P(cgt(2e61,i1))", "P(ceq(2e613f,i1))", "P(A(2e6c,cgt(2e,i0)))", "P(ceq(2e61,i1);ceq(2e62,s78))",
+	"P(cle(" + hxs(".zz.a?") + ",i10))", "P(A(" + hxs(".b[]?") + ",k(2e,2a)))"}
+var irrChoices = []string{"none", "meta", "nonce", "cause", "noiat", "iat", "meta,nonce,cause,iat", "emptynonce", "emptynonce,noiat", "iatfuture", "rawdlg"}
 
 func runChainStream(c *ctx) error {
 	principals()
@@ -729,6 +912,101 @@ func runChainStream(c *ctx) error {
 		d.aud = 5
 		c.emitScenario(d, "twins")
 	}
+	// (1c) principals of every key algorithm at every role of a conforming chain, with decoded and with
+	// constructed delegations
+	for n := 1; n <= 3; n++ {
+		for _, special := range []int{10, 11, 12} {
+			for role := 0; role <= n; role++ { // role 0 = subject/root issuer … role n = invoker
+				for _, irr := range []string{"none", "rawdlg"} {
+					s := conforming(n)
+					sub := func(p int) int {
+						if p == role%5 {
+							return special
+						}
+						return p
+					}
+					// conforming(n) uses principals 0..n cyclically (n ≤ 3 < 5): replace principal `role` everywhere
+					s.iss, s.sub = sub(s.iss), sub(s.sub)
+					for i := range s.links {
+						s.links[i].iss, s.links[i].aud, s.links[i].sub = sub(s.links[i].iss), sub(s.links[i].aud), sub(s.links[i].sub)
+					}
+					s.irr = irr
+					c.emitScenario(s, "key-types")
+				}
+			}
+		}
+	}
+	// (3b) delegations used as constructed (never sealed): a not-before of "now" keeps its sub-second part and is
+	// already in the past when the check runs
+	for n := 1; n <= 3; n++ {
+		for pos := 0; pos < n; pos++ {
+			for _, irr := range []string{"rawdlg", "none"} {
+				s := conforming(n)
+				s.links[pos].nbf = "0"
+				s.irr = irr
+				c.emitScenario(s, "fresh-nbf")
+				t := conforming(n)
+				t.links[pos].nbf = "0"
+				t.links[(pos+1)%n].exp = "7200"
+				t.irr = irr
+				c.emitScenario(t, "fresh-nbf")
+			}
+		}
+	}
+	// (1d) proofs listed AFTER the root, links named by another CID over the same digest, and a long valid chain
+	// followed by the same chain cut short (a decision must not be helped by what an earlier one left behind)
+	for n := 1; n <= 3; n++ {
+		base := func() []string {
+			var prf []string
+			for q := 0; q < n; q++ {
+				prf = append(prf, strconv.Itoa(q))
+			}
+			return prf
+		}
+		for _, extra := range []string{"x", strconv.Itoa(n - 1), "0", strconv.Itoa(n)} {
+			s := conforming(n)
+			// an unrelated, non-root delegation is available as table entry n
+			s.links = append(s.links, link{iss: 3, aud: 4, sub: 0, cmd: "/"})
+			s.prf = append(base(), extra)
+			c.emitScenario(s, "after-root")
+		}
+		for q := 0; q < n; q++ {
+			s := conforming(n)
+			s.prf = base()
+			s.prf[q] = "v" + strconv.Itoa(q)
+			c.emitScenario(s, "variant-cid")
+		}
+	}
+	{
+		long := 12
+		s := conforming(long)
+		// conforming() cycles over 5 principals: fine, repeated principals are allowed
+		c.emitScenario(s, "long-then-cut")
+		for cut := long - 1; cut >= 9; cut-- {
+			t := conforming(long)
+			var prf []string
+			for q := 0; q < cut; q++ {
+				prf = append(prf, strconv.Itoa(q))
+			}
+			t.prf = prf
+			c.emitScenario(t, "long-then-cut")
+			c.emitScenario(s, "long-then-cut")
+		}
+	}
+	// (3c) an issue time in the future does not move the instant of the check
+	for n := 1; n <= 2; n++ {
+		for pos := 0; pos < n; pos++ {
+			s := conforming(n)
+			s.links[pos].nbf = "7200"
+			s.irr = "iatfuture"
+			c.emitScenario(s, "iat-future")
+			t := conforming(n)
+			t.links[pos].exp = "7200"
+			t.irr = "iatfuture"
+			c.emitScenario(t, "iat-future")
+		}
+	}
+	c.emit("go.chain.sharedpolicies 0", "chain", true, "shared-policies")
 	// (4b) long policies: k always-true statements followed (or preceded) by the one that decides, on each link
 	for _, k := range []int{15, 16, 17, 63, 64, 65, 127, 128, 129, 255, 256, 257, 1000} {
 		if k > 129 && !c.thoro && k != 257 {
@@ -896,6 +1174,15 @@ func runChainStream(c *ctx) error {
 			b := conforming(n)
 			b.links[pos].nbf = "2"
 			hist(b, "all/-,T,all/-,all/-")
+			// a link that becomes active while another one stays expired: refused before and after
+			for other := 0; other < n; other++ {
+				if other != pos {
+					x := conforming(n)
+					x.links[pos].nbf = "2"
+					x.links[other].exp = "-7200"
+					hist(x, "all/-,T,all/-,all/-")
+				}
+			}
 		}
 		ie := conforming(n)
 		ie.exp = "2"
